@@ -24,6 +24,7 @@ import (
 type c12Case struct {
 	Type   string `json:"type"`  // fat12 fat16 fat32 ext4 iso9660 squashfs blank
 	Where  string `json:"where"` // whole gpt mbr
+	StartAt int64 `json:"start_at,omitempty"` // byte offset of the filesystem's partition when not the usual 1 MiB (e.g. beyond the partition's own size)
 	Size   int64  `json:"size"`  // size of the filesystem's range
 	Sector int    `json:"sector"`
 	Label  string `json:"label"`
@@ -175,6 +176,10 @@ func c12Run(c core.Case, env *core.Env) core.Result {
 	}
 	lss := int64(p.Sector)
 	startSectors := int64(2048*512) / lss
+	if p.StartAt > 0 && p.Where != "whole" {
+		startSectors = p.StartAt / lss
+		res.Mark("partition starts further into the disk than it is long")
+	}
 	devSize := p.Size
 	part := 0
 	if p.Where != "whole" {
@@ -499,6 +504,12 @@ func c12Cases(seed int64, tier string) []core.Case {
 
 				add(c12Case{Type: t, Where: w, Size: 16 << 20, Sector: sec, Label: "NEW", Prior: prev})
 			}
+			// the same in a partition that lies further into the disk than it is long (any second partition of
+			// equal size does), as the only partition and as the second one
+			add(c12Case{Type: t, Where: "gpt", StartAt: 24 << 20, Size: 16 << 20, Sector: sec, Label: "NEW", Prior: prev})
+			if sec == 512 {
+				add(c12Case{Type: t, Where: "mbr-2nd", StartAt: 40 << 20, Size: 16 << 20, Sector: sec, Label: "NEW", Prior: prev})
+			}
 		}
 	}
 	// re-partitioned disks: the table that is there now decides, whatever the disk carried before
@@ -539,10 +550,10 @@ func init() {
 	core.Register(&core.Check{
 		ID:          "C12",
 		Level:       "exploration",
-		Rule:        "disk.CreateFilesystem(T, label) for T in {fat12, fat16, fat32, ext4, iso9660, squashfs} on the whole disk, in a GPT partition and in an MBR partition of a store-backed disk (also as GPT entry 4 with slots 2-3 unused - slot 2 must then not be a partition -, as GPT entry 128, and as the second MBR partition) (512-byte sectors; 4096 for iso9660/squashfs), sizes bracketing each type's limits and (thorough) stepping across the FAT cluster-count thresholds, labels {empty, upper, 11 chars, lower case, with a space, with a space at the 8th place}; disks that carried another table (MBR under a GPT written with and without protective MBR, GPT under an MBR, a whole-disk FAT32 under either) before being partitioned; for the FAT types the sizes where CreateFilesystem flips between refusing and accepting are located at run time (geometric scan + bisection on a whole-disk range) and every sector size within +-48 (thorough +-160, also in partitions) of each flip is driven; one file is written (and the image finalized where needed); a freshly opened disk on the same bytes must report the table type, GetFilesystem(n).Type()==T, the label and the file's content; every ordered pair (previous type -> new type) is created in the same range without wiping; blank ranges must give the unknown-filesystem error. Non-trivial = filesystem accepted by CreateFilesystem and re-opened; distinct = distinct configuration",
+		Rule:        "disk.CreateFilesystem(T, label) for T in {fat12, fat16, fat32, ext4, iso9660, squashfs} on the whole disk, in a GPT partition and in an MBR partition of a store-backed disk (also as GPT entry 4 with slots 2-3 unused - slot 2 must then not be a partition -, as GPT entry 128, and as the second MBR partition) (512-byte sectors; 4096 for iso9660/squashfs), sizes bracketing each type's limits and (thorough) stepping across the FAT cluster-count thresholds, labels {empty, upper, 11 chars, lower case, with a space, with a space at the 8th place}; disks that carried another table (MBR under a GPT written with and without protective MBR, GPT under an MBR, a whole-disk FAT32 under either) before being partitioned; for the FAT types the sizes where CreateFilesystem flips between refusing and accepting are located at run time (geometric scan + bisection on a whole-disk range) and every sector size within +-48 (thorough +-160, also in partitions) of each flip is driven; one file is written (and the image finalized where needed); a freshly opened disk on the same bytes must report the table type, GetFilesystem(n).Type()==T, the label and the file's content; every ordered pair (previous type -> new type) is created in the same range without wiping - on the whole disk, in the usual first partition, and in partitions that start further into the disk than they are long (24 MiB and, as second MBR partition, 40 MiB into the disk for 16 MiB); blank ranges must give the unknown-filesystem error. Non-trivial = filesystem accepted by CreateFilesystem and re-opened; distinct = distinct configuration",
 		Assumptions: []string{"fat12/fat16/ext4 accept only 512-byte sectors and iso9660/squashfs need 2048+/4096: stale-bytes pairs that cannot share a disk are not driven", "a refusal by CreateFilesystem is an observation", "an MBR written over a GPT is still reported as GPT (the stale GPT headers are outside the MBR's own sectors and the bytes are indistinguishable from a GPT without protective MBR over an old MBR): recorded, not demanded"},
 		MinSigs:     map[string]int{"quick": 70, "thorough": 250},
-		NeedMarks:   []string{"fat12 on gpt-gap", "fat32 on gpt-last-slot", "ext4 on mbr-2nd", "fat12 accept/refuse flip found", "fat16 accept/refuse flip found", "fat32 accept/refuse flip found", "fat12 on whole", "fat16 on gpt", "fat32 on mbr", "ext4 on gpt", "iso9660 on whole", "squashfs on whole", "blank range"},
+		NeedMarks:   []string{"fat12 on gpt-gap", "fat32 on gpt-last-slot", "ext4 on mbr-2nd", "fat12 accept/refuse flip found", "fat16 accept/refuse flip found", "fat32 accept/refuse flip found", "fat12 on whole", "fat16 on gpt", "fat32 on mbr", "ext4 on gpt", "iso9660 on whole", "squashfs on whole", "blank range", "partition starts further into the disk than it is long"},
 		CPUSec:      600,
 		Cases:       c12Cases,
 		Run:         c12Run,
